@@ -394,7 +394,8 @@ Definition norm_attr (d : tdef) (kv : name * str) : name * str :=
 (* Known deviations of the implementation, each of which can be switched off in the comparison so that a
    difference is attributed to exactly the deviations needed to explain it (Model/XsdCorr.v: doc_quirks):
      q_nil     empty instances of nillable declarations (xsi:nil or not) are ignored, xsi:nil itself too
-     q_empty   simple-typed elements with empty content and list-typed attributes with an empty value are ignored
+     q_empty   simple-typed elements with empty content, every instance of a simple-typed element declared with a
+               default or fixed value, and declared attributes with an empty value are ignored
      q_union   union-typed elements and attributes: only their presence is compared, not their value
      q_alias   q_alias t q: under type t the child q shares a compound field with other primitive-typed
                choices (the serializer picks the choice by value, so names can be confused): only the
@@ -413,13 +414,12 @@ Definition norm_attrs (qk : quirks) (d : tdef) (attrs : list (name * str)) : lis
   let present := filter (fun kv => negb (name_eqb (fst kv) XSI_loc || name_eqb (fst kv) XSI_nnloc
                                         || (name_eqb (fst kv) XSI_nil && (q_nil qk || negb (is_true_lex (snd kv))))
                                         || (q_empty qk && ws_only (snd kv)
-                                            && match find_xattr d (fst kv) with
-                                               | Some x => is_list_type (xa_type x) | None => false end))) attrs in
+                                            && match find_xattr d (fst kv) with Some _ => true | None => false end))) attrs in
   let blank := fun (a : name) (v : str) =>
                  if q_union qk && match find_xattr d a with Some x => is_union_type (xa_type x) | None => false end
                  then ([] : str) else v in
   map (fun kv => let (a, v) := norm_attr d kv in (a, blank a v)) present
-  ++ concat (map (fun x => match attr_get attrs (xa_name x), xa_use x with
+  ++ concat (map (fun x => match attr_get present (xa_name x), xa_use x with
                            | None, AFixed v | None, ADefault v => [(xa_name x, blank (xa_name x) v)]
                            | _, _ => [] end) (td_attrs d)).
 
@@ -439,11 +439,16 @@ Definition ndoc_empty (n : ndoc) : bool :=
 Definition simple_of (d : tdef) : option stype := match td_content d with XCSimple st => Some st | _ => None end.
 
 (* what a normalised child instance becomes under the quirks *)
-Definition quirk_child (qk : quirks) (s : schema) (t : nat) (x : xdecl) (nk : ndoc) : list ndoc :=
+Definition raw_empty (k : xdoc) : bool :=
+  match k with DElem _ _ ks => negb (has_elems ks) && ws_only (text_of ks) | DText _ => false end.
+
+Definition quirk_child (qk : quirks) (s : schema) (t : nat) (x : xdecl) (k : xdoc) (nk : ndoc) : list ndoc :=
   let st := simple_of (get_type s (xd_type x)) in
   if q_alias qk t (xd_name x) then [NElem ALIAS None [] []]
   else if q_nil qk && xd_nillable x && ndoc_empty nk then []
-  else if q_empty qk && match st with Some _ => ndoc_empty nk | None => false end then []
+  else if q_empty qk && match st with
+                        | Some _ => raw_empty k || match xd_default x, xd_fixed x with None, None => false | _, _ => true end
+                        | None => false end then []
   else if q_union qk && match st with Some u => is_union_type u | None => false end then [NElem (xd_name x) None [] []]
   else [nk].
 
@@ -459,14 +464,14 @@ Fixpoint norm (qk : quirks) (fuel : nat) (s : schema) (t : nat) (dflt : option s
           | Some t' =>
               let d := get_type s t' in
               let attrs' := norm_attrs qk d attrs in
-              if is_nil attrs then NElem q (Some t') attrs' []
+              if is_nil attrs && negb (q_nil qk) then NElem q (Some t') attrs' []
               else
                 match td_content d with
                 | XCEmpty => NElem q (Some t') attrs' []
                 | XCSimple st =>
                     let txt := text_of kids in
                     let txt' := match txt, dflt with [], Some v => v | _, _ => txt end in
-                    NElem q (Some t') attrs' [NText txt']
+                    NElem q (Some t') attrs' [NText (if q_union qk && is_union_type st then [] else txt')]
                 | XCElems _ | XCMixed _ =>
                     let keep_text := match td_content d with XCMixed _ => true | _ => false end in
                     let ks := concat (map (fun k => match k with
@@ -474,7 +479,7 @@ Fixpoint norm (qk : quirks) (fuel : nat) (s : schema) (t : nat) (dflt : option s
                                                                  if ws_only x then [] else [NText x]
                                                     | DElem cq _ _ =>
                                                         match find_decl d cq with
-                                                        | Some x => quirk_child qk s t' x
+                                                        | Some x => quirk_child qk s t' x k
                                                                     (norm qk f s (xd_type x)
                                                                        (match xd_fixed x with Some v => Some v | None => xd_default x end) k)
                                                         | None => [NRaw k]
